@@ -677,6 +677,72 @@ func work(w *mon.W) {
 	}()
 	w.Cases("scenario", uint64(w.Pick(48, 1500)), func(c *mon.Case) { oneScenario(w, c) })
 	// shutdown of a server that was never run
+	// still-starting: Shutdown arrives while an OnRun start-up hook has not returned yet (the
+	// server is not running: no listener).  Either it reports that, or - if it reports
+	// success - the server stays down: no connection is accepted afterwards.
+	w.Cases("still-starting", uint64(w.Pick(6, 60)), func(c *mon.Case) {
+		r := c.R
+		np := r.Bool()
+		port := freePort()
+		addr := fmt.Sprintf("127.0.0.1:%d", port)
+		var tr func(*config.Options) network.Transporter = standard.NewTransporter
+		if np {
+			tr = netpoll.NewTransporter
+		}
+		h := server.New(server.WithHostPorts(addr), server.WithTransport(tr), server.WithExitWaitTime(300*time.Millisecond), server.WithDisablePrintRoute(true))
+		h.GET("/quick", func(cc context.Context, ctx *app.RequestContext) { ctx.Response.SetBodyString("quick") })
+		inHook, release := make(chan struct{}), make(chan struct{})
+		h.OnRun = append(h.OnRun, func(ctx context.Context) error { close(inHook); <-release; return nil })
+		runErr := make(chan error, 1)
+		go func() { runErr <- h.Run() }()
+		c.Detail = func() interface{} { return map[string]interface{}{"family": "still-starting", "netpoll": np} }
+		select {
+		case <-inHook:
+		case <-time.After(20 * time.Second):
+			w.Note("still-starting: the OnRun hook was not entered; case skipped")
+			close(release)
+			return
+		}
+		sd := make(chan error, 1)
+		go func() { sd <- h.Shutdown(context.Background()) }()
+		var first error
+		select {
+		case first = <-sd:
+		case <-time.After(30 * time.Second):
+			close(release)
+			c.Violate("shutdown-hangs", "Shutdown called during an OnRun hook did not return within 30 s")
+			return
+		}
+		close(release)
+		w.Count("still_starting_shutdowns", 1)
+		// let the start-up run to its end, whatever that is: the listener comes up or Run returns
+		up := false
+		for i := 0; i < 400 && !up; i++ {
+			if cn, err := net.DialTimeout("tcp", addr, 100*time.Millisecond); err == nil {
+				cn.Close()
+				up = true
+				break
+			}
+			select {
+			case <-runErr:
+				i = 1000
+			default:
+				time.Sleep(5 * time.Millisecond)
+			}
+		}
+		if first == nil && up {
+			c.Violate("accepted-after-shutdown", "Shutdown called while an OnRun hook was still running returned nil, and the server then came up and accepted a connection on %s", addr)
+		}
+		if up {
+			// a proper shutdown of the server that did come up
+			ctx, cancel := context.WithTimeout(context.Background(), 5*time.Second)
+			err := h.Shutdown(ctx)
+			cancel()
+			if first != nil && err != nil {
+				c.Violate("shutdown-refused", "the server came up after a Shutdown that reported %q; the Shutdown of the running server then failed with %q", first, err)
+			}
+		}
+	})
 	w.Cases("never-run", uint64(w.Pick(6, 40)), func(c *mon.Case) {
 		h := server.New(server.WithHostPorts("127.0.0.1:1"), server.WithDisablePrintRoute(true))
 		done := make(chan error, 1)
